@@ -27,7 +27,8 @@ CHECKS = {
             "column, plus assembled LP/MIP/split problems, are optimised with every installed solver choice; the returned "
             "vector is checked row by row and the value against an independent optimum; failure reports against an "
             "independent infeasibility proof.",
-            "Trusted: scipy HiGHS (MIP presolve switched off after it proved wrong, see DESIGN 6.2); a deviation that another "
+            "Trusted: scipy HiGHS (MIP presolve switched off and integer bounds rounded after it proved wrong; on a MIP disagreement "
+            "an exact enumeration of <= 12 booleans or a feasibility witness decides, DESIGN 12); a deviation that another "
             "solver behind the same EAO translation does not share is attributed to the solver backend, not to EAO.",
             "DESIGN.md 5 C03"),
     "C20": ("property-based testing (Hypothesis): differential against an independent one-variable-per-order LP/MILP + output predicates + metamorphic removal",
@@ -42,10 +43,12 @@ CHECKS = {
             "order and a fresh stand-alone build.",
             "Trusted: numpy; fresh stand-alone builds of the same code give each asset's variable count.",
             "DESIGN.md 5 C04"),
-    "C05": ("property-based testing (Hypothesis): physical reference recursion + validity predicates over the solution and the reported series",
+    "C05": ("property-based testing (Hypothesis): physical reference recursion + validity predicates over the solution and the reported series; exhaustive enumeration of all 2^T non-empty-step patterns for the maximum holding duration on grids with unequal steps",
             "Exploration: storages with every listed parameter (inflow, efficiency, start != end, two nodes, windows, blocks, "
             "MIP options) are optimised inside generated portfolios; the fill level is recomputed from Results.x by the "
-            "recursion in the statement and compared with bounds, end level and the reported series.",
+            "recursion in the statement and compared with bounds, end level and the reported series (also for storages with an own "
+            "coarser frequency or periodicity); for the maximum holding duration every pattern of non-empty steps is pinned in "
+            "EAO's problem on DST / month grids and must be feasible iff no run exceeds the duration.",
             "Trusted: mapping rows name the storage's charge/discharge variables (var_name disp/disp_in/disp_out). Known "
             "finding D7 (blocks ending on a boundary) is excluded by construction and replayed as KNOWN-FINDING.",
             "DESIGN.md 5 C05"),
@@ -58,10 +61,11 @@ CHECKS = {
             "Profiles exact and monotone; a fall from normal operation into the first shutdown-profile step that exceeds the "
             "ramp is left undecided (statement silent).",
             "DESIGN.md 5 C06"),
-    "C07": ("property-based testing (Hypothesis): structural invariants + differential against stand-alone asset problems, no solver",
+    "C07": ("property-based testing (Hypothesis): structural invariants + differential against stand-alone asset problems and against the interval problems of the split build + independent rule for periodic assets, no solver",
             "Exploration: assembled problems of generated portfolios (adversarial names, unmapped variables, appended "
             "variables, several rows per variable) are compared block by block with the stand-alone problem of a fresh "
-            "copy of each asset and with the nodal rows recomputed from the mapping.",
+            "copy of each asset and with the nodal rows recomputed from the mapping; the mapping of the split build must be the "
+            "interval mappings shifted by the variables before them; steps of a periodic asset share a variable only whole periods apart.",
             "Trusted: scipy.sparse arithmetic; stand-alone set-up of an asset defines what 'the asset computed for it' means.",
             "DESIGN.md 5 C07"),
     "C08": ("property-based testing (Hypothesis): metamorphic relation (add an out-of-horizon element / clip a take period) with solution transfer",
@@ -108,7 +112,8 @@ CHECKS = {
             "Exploration: generated portfolios without coupling / with start=end storages are set up split (interval sizes 6h..W, "
             "aligned or not, DST zones, wacc) and unsplit; value must be the sum of independently solved interval optima, "
             "the split solution must be feasible and equally valued in the unsplit problem, equal / not larger than the "
-            "unsplit optimum, and balanced on the original grid.",
+            "unsplit optimum, and balanced on the original grid; gaps without any active asset and fully fixed (consistent or "
+            "contradictory) intervals are generated - a reported solution must not contain an infeasible interval.",
             "Trusted: transfer.py, scipy-HiGHS for the interval problems, C01's balance oracle. Grid ends at an ambiguous wall "
             "time are excluded (pandas cannot build the interval range).",
             "DESIGN.md 5 C14"),
@@ -122,21 +127,24 @@ CHECKS = {
             "Exploration: scaled assets at a pinned scale are compared with the base asset whose volume/rate parameters are "
             "multiplied by s/S minus the fixed cost; free scales against sampled pinned scales and the returned scale; structured "
             "assets against the flat portfolio with internal nodes as ordinary nodes, solutions transferred both ways.",
-            "Trusted: list of scaled parameters in c16.scaled_base, transfer.py. LP bases only.",
+            "Trusted: list of scaled parameters in c16.scaled_base, transfer.py. Bases: storage, contracts, transports, multi-commodity, "
+            "order book; nested structured assets. Known finding D50 (bases with internal variables raise) is excluded by "
+            "construction and replayed as KNOWN-FINDING.",
             "DESIGN.md 5 C16"),
     "C17": ("property-based testing (Hypothesis): defining inequalities of two-stage stochastic / robust problems checked against per-scenario optima from scipy-HiGHS",
             "Exploration: generated portfolios, scenario sets sharing the present and boundaries; the SLP built by make_slp is "
             "decomposed into scenario blocks (feasibility in the deterministic problem, accounting identity with independently "
             "recomputed cost vectors) and bracketed by wait-and-see and expected-value bounds; the robust solution's worst "
             "case is compared with every single-scenario solution.",
-            "Trusted: scipy-HiGHS per-scenario solves; cost vectors from fresh portfolios (costs_only). Portfolios with one "
-            "mapping row per variable.",
+            "Trusted: scipy-HiGHS per-scenario solves; cost vectors from fresh portfolios (costs_only). Order books and coarse "
+            "storages give variables that span the present/future boundary; robust scenario sets with or without the set-up prices.",
             "DESIGN.md 5 C17"),
     "C18": ("property-based testing (Hypothesis): supergradient inequality checked by re-optimising a perturbed problem with scipy-HiGHS",
             "Exploration: for generated LP portfolios a (node, step) and an injection d of either sign are drawn; the nodal "
             "right-hand side is perturbed and the problem re-solved independently; the reported nodal price must satisfy "
             "V(d) <= V(0) + price*d. Any supergradient passes, so degenerate optima cannot raise an alarm.",
-            "Trusted: scipy-HiGHS optimum of the perturbed problem; the row is located through map_nodal_restr (checked by C07).",
+            "Trusted: scipy-HiGHS optimum of the perturbed problem; the row is located from the mapping's dispatch rows, independently "
+            "of the order of map_nodal_restr. Split builds, gaps without active assets and penalty-priced slack sources are generated.",
             "DESIGN.md 5 C18"),
     "C19": ("property-based testing (Hypothesis) against an independent UTC-arithmetic reference model",
             "Exploration: thousands of generated grids / windows / interval lists / price inputs per run are compared "
